@@ -23,13 +23,19 @@ def workload(chk):
         items.append((os.path.basename(e[0]), corpus.cmdline(e)))
     for i in range(chk.pick(40, 200)):
         rng = chk.rng("gen", i)
-        k = rng.choice(["c", "cxx", "types", "static", "abi"])
+        k = rng.choice(["c", "cxx", "types", "static", "abi", "fallback"])
         if k == "c":
             p = write(os.path.join(d, "g%d.h" % i), gen_funcs.gen_c(rng, rng.randint(10, 40))[0])
             fl = [p] + rng.choice([[], ["--merge-extern-blocks"], ["--sort-semantically"], ["--with-derive-hash", "--with-derive-eq"]])
         elif k == "cxx":
             p = write(os.path.join(d, "g%d.hpp" % i), gen_funcs.gen_cxx(rng, rng.randint(8, 20)))
             fl = [p, "--enable-cxx-namespaces"]
+        elif k == "fallback":
+            # function-like macro wrappers need --clang-macro-fallback, which evaluates them through scratch files (a source file and a
+            # precompiled header) next to the build: concurrent generations must not share them
+            body = "#define WRAP%d(c) c ## U\n" % i + "".join("#define FB%d_%d WRAP%d(%d << %d)\n" % (i, j, i, rng.randint(1, 99), rng.randint(0, 8)) for j in range(rng.randint(2, 8)))
+            p = write(os.path.join(d, "g%d.h" % i), body + "int fb%d(int);\n" % i)
+            fl = [p, "--clang-macro-fallback"]
         elif k == "abi":
             # several kinds of extern block in one module (calling conventions, partial --override-abi, block attributes) under the merging /
             # sorting passes: whatever groups them must not depend on hash order
@@ -175,11 +181,14 @@ def history(chk, items, refs, hi, length):
                    sample={"history": [items[pool[o]][0] for o in order][:12]} if hi == 0 else None)
 
 
-def threads(chk, items, refs, ti, nthreads, rounds):
+def threads(chk, items, refs, ti, nthreads, rounds, only=None):
     rng = chk.rng("thr", ti)
     d = chk.dir("thr%d" % ti)
     same = ti % 2 == 0
-    pool = rng.sample(range(len(items)), 1 if same and ti % 4 == 0 else min(len(items), rng.randint(2, 5)))
+    cand = [k for k in range(len(items)) if only is None or only in items[k][0] or any(only in str(a) for a in items[k][1])]
+    if not cand:
+        return None
+    pool = rng.sample(cand, 1 if same and ti % 4 == 0 else min(len(cand), rng.randint(2, 5)))
     jobs = jobs_for([items[k] for k in pool])
     rc, res, err, _ = drv.drive({"mode": "threads", "jobs": jobs, "threads": nthreads, "rounds": rounds}, d, "t", timeout=900, cpu=1500)
     name = "threads-%d" % ti
@@ -215,6 +224,9 @@ def run(chk):
             range(chk.pick(12, 100)), budget_s=chk.pick(300, 1500))
     chk.map(lambda ti: threads(chk, items, refs, ti, chk.pick(8, 16), chk.pick(2, 3)), range(chk.pick(8, 40)),
             jobs=2, budget_s=chk.pick(300, 1500))
+    # groups made only of generations that use the macro-fallback scratch files
+    chk.map(lambda ti: threads(chk, items, refs, 1000 + ti, chk.pick(8, 16), chk.pick(2, 3), only="clang-macro-fallback"), range(chk.pick(4, 16)),
+            jobs=2, budget_s=chk.pick(200, 900))
     return chk.finish(
         rule="cases: (a) one per header: N separate CLI processes under varied ASLR (setarch -R), environment size, HOME, cwd and "
              "stdout-vs-file, hashing bindings, depfile and wrapper C file; (b) one per in-process history of 5..50 generations in "
